@@ -282,6 +282,10 @@ def cases(tier, seed):
     # permuted order / split over two attributes (order is irrelevant to rustc as long as impls exist)
     for s in ([["Clone", "Debug", "PartialEq"], ["Hash", "Eq", "PartialEq", "Debug"]] if tier == "quick" else [list(reversed(s)) for s in subsets if len(s) >= 2][::3]):
         out.append(Case(len(out), s, nested=False, split=True))
+    # the order in which the traits are listed in ONE attribute is irrelevant too: a vector-only trait (Clone) first, last, in the middle
+    for s in ([["Clone", "Debug", "PartialEq"], ["Clone", "Debug", "PartialEq", "Eq", "PartialOrd", "Ord", "Hash"], ["Debug", "Clone", "PartialEq"], ["Hash", "Eq", "Clone", "PartialEq", "Debug"]]
+              if tier == "quick" else [[x] + [t for t in s if t != x] for s in subsets if len(s) >= 3 for x in s[-2:]][::2]):
+        out.append(Case(len(out), s, nested=(len(out) % 2 == 0)))
     # soa_attr: a derive on exactly one kind
     for i, k in enumerate(KINDS):
         out.append(Case(len(out), [], [(k, "Debug")], nested=(i % 2 == 1)))
